@@ -170,10 +170,17 @@ Zip     == phase = "closed" /\ phase' = "zipped" /\ UNCHANGED <<redir, hist, nim
 OpenDir == phase = "closed" /\ phase' = "open" /\ via' = "dir" /\ UNCHANGED <<redir, hist, nimg>>
 OpenZip == phase = "zipped" /\ phase' = "open" /\ via' = "zip" /\ UNCHANGED <<redir, hist, nimg>>
 
+\* a lookup on the opened archive: it answers from the history and changes nothing, so the
+\* predictions below hold for every SEQUENCE of lookups on one opened archive, in any order and under
+\* any mix of default namespaces (the harness issues all reads of a history on one wiki object in a
+\* seeded, interleaved order)
+Read(kind) == phase = "open" /\ kind \in {"rev", "title", "image"} /\ UNCHANGED vars
+
 Next ==
   \/ Redirect
   \/ \E t \in 1..NTitles, r \in 0..NRevids, rt \in BOOLEAN : WritePage(t, r, rt) \/ WriteExpanded(t, r, rt)
   \/ StoreImage \/ Close \/ Zip \/ OpenDir \/ OpenZip
+  \/ \E kind \in {"rev", "title", "image"} : Read(kind)
 
 Spec == Init /\ [][Next]_vars /\ WF_vars(Zip \/ OpenZip \/ OpenDir)
 
@@ -230,6 +237,8 @@ SkipLaw ==
 
 ActionOrder == [][ /\ (phase' = "open" => phase \in {"closed", "zipped"})
                    /\ (phase \in {"closed", "zipped", "open"} => hist' = hist /\ redir' = redir /\ nimg' = nimg) ]_vars
+
+ReadsArePure == [][phase = "open" => UNCHANGED vars]_vars
 
 \* a closed archive is eventually opened (histories with a gap in the revision ids are dead ends by
 \* construction: they are renamings of gap-free ones and are never closed)
